@@ -23,17 +23,21 @@ Step(s) == CASE s = "new" -> 0 [] s = "negotiating" -> 1
 
 (* canonical string form of small option sets *)
 JoinC(a, b) == IF a = "" THEN b ELSE IF b = "" THEN a ELSE a \o "," \o b
-EncStr(S)  == JoinC(IF "none" \in S THEN "none" ELSE "", IF "tls" \in S THEN "tls" ELSE "")
+EncStr(S)  == JoinC(JoinC(IF "none" \in S THEN "none" ELSE "", IF "tls" \in S THEN "tls" ELSE ""),
+                    IF "dtls" \in S THEN "dtls" ELSE "")     \* "dtls": an option no transport supports
 CompStr(S) == JoinC(IF "none" \in S THEN "none" ELSE "", IF "gzip" \in S THEN "gzip" ELSE "")
-SchStr(S)  == JoinC(JoinC(IF "guest" \in S THEN "guest" ELSE "",
-                          IF "plain" \in S THEN "plain" ELSE ""),
-                    IF "transport" \in S THEN "transport" ELSE "")
-EncSet(s)  == IF \E S \in SUBSET {"none", "tls"} : EncStr(S) = s
-              THEN CHOOSE S \in SUBSET {"none", "tls"} : EncStr(S) = s ELSE {"?"}
+SchStr(S)  == JoinC(JoinC(JoinC(JoinC(IF "guest" \in S THEN "guest" ELSE "",
+                                      IF "plain" \in S THEN "plain" ELSE ""),
+                                IF "transport" \in S THEN "transport" ELSE ""),
+                          IF "key" \in S THEN "key" ELSE ""),
+                    IF "external" \in S THEN "external" ELSE "")
+EncSet(s)  == IF \E S \in SUBSET {"none", "tls", "dtls"} : EncStr(S) = s
+              THEN CHOOSE S \in SUBSET {"none", "tls", "dtls"} : EncStr(S) = s ELSE {"?"}
 CompSet(s) == IF \E S \in SUBSET {"none", "gzip"} : CompStr(S) = s
               THEN CHOOSE S \in SUBSET {"none", "gzip"} : CompStr(S) = s ELSE {"?"}
-SchSet(s)  == IF \E S \in SUBSET {"guest", "plain", "transport"} : SchStr(S) = s
-              THEN CHOOSE S \in SUBSET {"guest", "plain", "transport"} : SchStr(S) = s ELSE {"?"}
+AllSchemes == {"guest", "plain", "transport", "key", "external"}
+SchSet(s)  == IF \E S \in SUBSET AllSchemes : SchStr(S) = s
+              THEN CHOOSE S \in SUBSET AllSchemes : SchStr(S) = s ELSE {"?"}
 
 (* what a transport kind can provide *)
 SupEnc(tk)  == CASE tk \in {"tcp_tls", "tcp_notls"} -> {"none", "tls"}
@@ -230,6 +234,9 @@ C14_Released(cfg, obs) ==
 (* C08 — the client tolerates any server and reports establishment truthfully *)
 (* (client role: `in` = what the raw server sent, `out` = what the client    *)
 (* wrote, `ret` = result of EstablishSession and the channel's own report)   *)
+(* C03: the authentication callback is given the credentials as the peer presented them *)
+C03_AsPresented(obs) == \A n \in Idx(obs) : obs[n].k # "authargs"
+
 C08_NoPanic(obs) == \A n \in Idx(obs) : obs[n].k # "panic"
 C08_Returns(obs) == \E n \in Idx(obs) : obs[n].k = "ret"
 
